@@ -13,6 +13,8 @@ def canon(v, depth=0):
     numpy = _np()
     if depth > 6:
         return "<deep>"
+    if hasattr(v, "verif_canon"):
+        return v.verif_canon
     if v is None or isinstance(v, (bool, int, str)):
         return v
     if isinstance(v, float):
